@@ -17,6 +17,12 @@ N6  `unsafe { NonZeroUsize::new_unchecked(E) }` -> `nz(E)` where `fn nz(x) requi
 N7  closure parameter type annotations at declared sites (rustc checks they agree)
 N10 a non-block tail expression `E` of a fn body  ->  `let verif_ret = E; verif_ret`  (so that a proof block
     can sit between the last call and the return; evaluation order unchanged)
+N15 `for (I, X) in E.iter().enumerate() { B }`  ->  `{ let mut I: usize = 0; while I < E.len() { let X = &E[I]; B I += 1; } }`
+    (E a place expression that derefs to a slice, I and X plain identifiers, no `continue` and no assignment to I in B:
+    the same pairs (i, &E[i]) in the same order; `break` leaves the loop in both forms; I is scoped to the block)
+N16 `for (I, W) in E.windows(K).enumerate() { B }`  ->  `{ let mut I: usize = 0; while E.len() >= K && I <= E.len() - K
+    { let W = &E[I..I + K]; B I += 1; } }`  (K an integer literal >= 1; same side conditions as N15: `windows(K)` yields
+    exactly the sub-slices E[i..i+K] for i = 0..=len-K, in order, and nothing when len < K)
 N9  declared literal substitutions at named sites (each listed in the unit spec with its justification)
 """
 import re
@@ -361,6 +367,48 @@ def _indent_of_line(text, pos):
     return re.match(r"[ \t]*", text[ls:]).group(0)
 
 
+def n15_enumerate_loops(text, applied, where):
+    """for (I, X) in E.iter().enumerate() { B }  ->  indexed while loop (see the module docstring)."""
+    while True:
+        masked = rustlex.mask(text)
+        m = re.search(r"\bfor\s*\(\s*([A-Za-z_]\w*)\s*,\s*([A-Za-z_]\w*)\s*\)\s*in\s+([A-Za-z_][\w.]*)\.iter\(\)\.enumerate\(\)\s*\{", masked)
+        if not m:
+            return text
+        idx, item, expr = m.group(1), m.group(2), m.group(3)
+        o = m.end() - 1
+        c = rustlex.match_bracket(masked, o)
+        body_m = masked[o + 1:c]
+        if re.search(r"\bcontinue\b", body_m) or re.search(r"\b%s\s*(?:[+\-*/%%^|&]|<<|>>)?=(?!=)" % re.escape(idx), body_m):
+            raise rustlex.LexError("N15 does not apply: the enumerate loop body has `continue` or assigns its index")
+        ind = _indent_of_line(text, m.start())
+        body = text[o + 1:c].rstrip()
+        new = ("{\n%slet mut %s: usize = 0;\n%swhile %s < %s.len() {\n%s    let %s = &%s[%s];%s\n%s    %s += 1;\n%s}\n%s}"
+               % (ind, idx, ind, idx, expr, ind, item, expr, idx, body, ind, idx, ind, ind))
+        applied.add("N15", where, "for (%s, %s) in %s.iter().enumerate() -> indexed while loop" % (idx, item, expr))
+        text = text[:m.start()] + new + text[c + 1:]
+
+
+def n16_windows_enumerate_loops(text, applied, where):
+    """for (I, W) in E.windows(K).enumerate() { B }  ->  indexed while loop (see the module docstring)."""
+    while True:
+        masked = rustlex.mask(text)
+        m = re.search(r"\bfor\s*\(\s*([A-Za-z_]\w*)\s*,\s*([A-Za-z_]\w*)\s*\)\s*in\s+([A-Za-z_][\w.]*)\.windows\(\s*([1-9]\d*)\s*\)\.enumerate\(\)\s*\{", masked)
+        if not m:
+            return text
+        idx, item, expr, k = m.group(1), m.group(2), m.group(3), m.group(4)
+        o = m.end() - 1
+        c = rustlex.match_bracket(masked, o)
+        body_m = masked[o + 1:c]
+        if re.search(r"\bcontinue\b", body_m) or re.search(r"\b%s\s*(?:[+\-*/%%^|&]|<<|>>)?=(?!=)" % re.escape(idx), body_m):
+            raise rustlex.LexError("N16 does not apply: the windows/enumerate loop body has `continue` or assigns its index")
+        ind = _indent_of_line(text, m.start())
+        body = text[o + 1:c].rstrip()
+        new = ("{\n%slet mut %s: usize = 0;\n%swhile %s.len() >= %s && %s <= %s.len() - %s {\n%s    let %s = &%s[%s..%s + %s];%s\n%s    %s += 1;\n%s}\n%s}"
+               % (ind, idx, ind, expr, k, idx, expr, k, ind, item, expr, idx, idx, k, body, ind, idx, ind, ind))
+        applied.add("N16", where, "for (%s, %s) in %s.windows(%s).enumerate() -> indexed while loop" % (idx, item, expr, k))
+        text = text[:m.start()] + new + text[c + 1:]
+
+
 def strip_visibility(text):
     return re.sub(r"^(\s*)pub(?:\([^)]*\))?\s+", r"\1", text, count=1)
 
@@ -376,6 +424,10 @@ def normalise_fn(text, where, applied, rules, literal_subs=(), keep_visibility=F
         text = n2_destructuring_assign(text, applied, where)
     if "N3" in rules:
         text = n3_strict_bool_ops(text, applied, where)
+    if "N15" in rules:
+        text = n15_enumerate_loops(text, applied, where)
+    if "N16" in rules:
+        text = n16_windows_enumerate_loops(text, applied, where)
     for (rule, old, new, why) in literal_subs:
         if old in text:
             text = text.replace(old, new)
